@@ -24,7 +24,16 @@ impl Hasher for RecordingHasher {
     }
 }
 
+/// Static strings for the borrowed construction paths. Strings that are a prefix of one of the shared buffers are
+/// returned as slices of that one buffer, so different strings can start at the same address (pointer identity must
+/// never stand in for content equality).
 fn leak_str(s: &str) -> &'static str {
+    static SHARED: [&str; 4] = ["ab", "a.b", "kk", "xé"];
+    for b in SHARED.iter() {
+        if b.starts_with(s) {
+            return &b[..s.len()];
+        }
+    }
     Box::leak(s.to_string().into_boxed_str())
 }
 fn leak_labels(v: Vec<Label>) -> &'static [Label] {
